@@ -85,6 +85,22 @@ RECURSIVE Subtree(_, _)
 Subtree(D, h) == {h} \cup UNION {Subtree(D, x) : x \in Children(D, h)}
 
 
+\* ------------------------------------------------------------------ situations (coverage labels of a finished transaction)
+\* The drivers pick the behaviours they replay so that every situation label that TLC reached is covered at least once
+\* (greedy set cover), instead of trusting a random sample: what kind of entity an item touches, how many context states
+\* / children it has at that moment, how the item entered the transaction, how many items share a context descriptor.
+Cap2(n) == IF n > 2 THEN 2 ELSE n
+NCtx(h) == Cardinality({c \in CH : m.C[c].present /\ m.C[c].d = h})
+Fan(h) == IF ~m.D[h].present THEN 0 ELSE IF Kind[h] = "ctx" THEN Cap2(NCtx(h)) ELSE Cap2(Cardinality(Children(m.D, h)))
+SameD(t, d) == Cap2(Cardinality({i \in 1..Len(t.c) : t.c[i].d = d}))
+SitOf(t, how) ==
+  {"T:" \o t.kind \o ":" \o how \o ":" \o (IF t.rej = 1 THEN "rej" ELSE "-")
+        \o ":" \o (IF t.d = <<>> /\ t.s = <<>> /\ t.c = <<>> THEN "empty" ELSE "-")}
+  \cup {"D:" \o t.d[i].op \o ":" \o Kind[t.d[i].h] \o ":" \o ToString(Fan(t.d[i].h)) \o ":" \o how : i \in 1..Len(t.d)}
+  \cup {"S:" \o t.s[i].op \o ":" \o t.s[i].via \o ":" \o Kind[t.s[i].h] \o ":" \o t.kind \o ":" \o how : i \in 1..Len(t.s)}
+  \cup {"C:" \o t.c[i].op \o ":" \o t.c[i].assoc \o ":" \o ToString(SameD(t, t.c[i].d)) \o ":" \o t.kind \o ":" \o how
+          : i \in 1..Len(t.c)}
+
 \* ------------------------------------------------------------------ begin / abort
 Begin(k) == /\ tx.kind = "none" /\ ntx < MaxTx
             /\ tx' = [NoTx EXCEPT !.kind = k]
@@ -94,7 +110,7 @@ Begin(k) == /\ tx.kind = "none" /\ ntx < MaxTx
 \* application code raises inside the transaction body
 Abort == /\ tx.kind # "none"
          /\ tx' = NoTx /\ ntx' = ntx + 1 /\ UNCHANGED m
-         /\ Log([act |-> "Abort", res |-> "ok"])
+         /\ Log([act |-> "Abort", res |-> "ok", sit |-> SitOf(tx, "abort")])
 
 \* an API call the transaction rejects (exception caught by the application, transaction goes on)
 Rejected(rec) == /\ tx.rej = 0
@@ -378,7 +394,7 @@ Committed(mm, t) ==
 Commit == /\ tx.kind # "none"
           /\ m' = Committed(m, tx)
           /\ tx' = NoTx /\ ntx' = ntx + 1
-          /\ Log([act |-> "Commit", res |-> "ok"])
+          /\ Log([act |-> "Commit", res |-> "ok", sit |-> SitOf(tx, "commit")])
 
 \* the application changes an object it obtained from the MDIB outside of any transaction (C03 isolation):
 \* src names the hand-out channel.  In the model nothing happens.
